@@ -73,6 +73,11 @@ class Blob:
         self.start = norm(start)
         self.n = norm(n)
 
+    def __len__(self):
+        if is_c(self.n):
+            return self.n
+        return E.choose_value(zt(self.n), cap=64)
+
 
 class Layer:
     __slots__ = ("seq", "addr", "n", "src")
@@ -388,8 +393,22 @@ class SymFile:
             blob = Blob(st.copy(), pos, cnt)
             self.pos = st.length
             return blob
+        if is_c(n) and n > 4096 and (st.high or not is_c(pos) or not is_c(st.length)):
+            # a large read from a file with symbolic layers: kept as an opaque range
+            # (materialising tens of thousands of symbolic bytes serves no purpose)
+            n = SInt(z3.IntVal(n))
         if not is_c(n):
-            n = E.choose_value(zt(n), cap=64)
+            # a read of symbolic length: an opaque range of the current content
+            avail = zt(st.length) - zt(pos)
+            cnt = norm(z3.If(zt(n) <= avail, zt(n), z3.If(avail < 0, z3.IntVal(0), avail)))
+            if is_c(cnt):
+                n = cnt
+            else:
+                if E.branch(zt(cnt) <= 0):
+                    return b""
+                blob = Blob(st.copy(), pos, cnt)
+                self.pos = norm(zt(pos) + zt(cnt))
+                return blob
         if n == 0:
             return b""
         end = norm(zt(pos) + n)
